@@ -389,3 +389,111 @@ func genMetaValue(r *rand.Rand, depth int) any {
 		return map[string]any{"x": tameFloat(r) * 300, "y": tameFloat(r) * 300}
 	}
 }
+
+var unicodeKeys = []string{"ключ", "键", "clé é", "🛸", "Ω≈ç", "tab\there", "quote\"d", "", " ", "k/with/slashes"}
+
+// genMetaEdge produces the metadata values at the edges of what JSON can say:
+// empty containers at every depth, arrays of empties, null, the zero values of
+// every scalar type, numbers where integers and floats part ways, unicode keys,
+// deep nesting. The class names the outermost shape.
+func genMetaEdge(r *rand.Rand) (any, string) {
+	var empties func(depth int) any
+	empties = func(depth int) any {
+		if depth == 0 {
+			switch r.Intn(3) {
+			case 0:
+				return []any{}
+			case 1:
+				return map[string]any{}
+			}
+			return nil
+		}
+		if r.Intn(2) == 0 {
+			l := make([]any, 1+r.Intn(3))
+			for i := range l {
+				l[i] = empties(depth - 1 - r.Intn(depth))
+			}
+			return l
+		}
+		m := map[string]any{}
+		for i, n := 0, 1+r.Intn(3); i < n; i++ {
+			m[[]string{"members", "tags", "children", "items"}[r.Intn(4)]] = empties(depth - 1 - r.Intn(depth))
+		}
+		return m
+	}
+	switch r.Intn(12) {
+	case 0:
+		return []any{}, "empty-array"
+	case 1:
+		return map[string]any{}, "empty-object"
+	case 2:
+		return empties(1 + r.Intn(4)), "nested-empties"
+	case 3:
+		return []any{[]any{}, map[string]any{}, nil, []any{[]any{}}}, "array-of-empties"
+	case 4:
+		return []any{map[string]any{"members": []any{}}, map[string]any{"members": []any{"a"}, "tags": []any{}}}, "array-of-objects-with-empty-arrays"
+	case 5:
+		return nil, "null"
+	case 6:
+		return []any{"", 0.0, false, nil}[r.Intn(4)], "zero-value-scalar"
+	case 7:
+		return []float64{1e21, 1e21 - 1e5, float64(int64(1)<<53 + 2), float64(int64(1) << 53), -float64(int64(1)<<53 + 2), math.Copysign(0, -1), 1e-7, 123456789012345680000, math.MaxFloat64, math.SmallestNonzeroFloat64, 4294967296, -2147483649}[r.Intn(12)], "boundary-number"
+	case 8:
+		m := map[string]any{}
+		for i, n := 0, 1+r.Intn(3); i < n; i++ {
+			m[unicodeKeys[r.Intn(len(unicodeKeys))]] = genMetaValue(r, 2)
+		}
+		return m, "unicode-keys"
+	case 9:
+		var v any = []any{}
+		if r.Intn(2) == 0 {
+			v = "leaf"
+		}
+		for d := 5 + r.Intn(12); d > 0; d-- {
+			if r.Intn(2) == 0 {
+				v = []any{v}
+			} else {
+				v = map[string]any{"n": v}
+			}
+		}
+		return v, "deep-nesting"
+	case 10:
+		return []any{[]any{}, []any{}, []any{}}, "array-of-empty-arrays"
+	}
+	return map[string]any{"tags": []any{}, "groups": []any{map[string]any{"members": []any{}}}, "label": "", "collapsed": false, "order": 0.0, "parent": nil}, "object-of-zero-values"
+}
+
+// metaStats walks a metadata tree.
+type metaStats struct {
+	emptyArrays, emptyObjects, nulls, depth int
+	unicode                                 bool
+}
+
+func (st *metaStats) walk(v any, d int) {
+	if d > st.depth {
+		st.depth = d
+	}
+	switch x := v.(type) {
+	case nil:
+		st.nulls++
+	case []any:
+		if len(x) == 0 {
+			st.emptyArrays++
+		}
+		for _, e := range x {
+			st.walk(e, d+1)
+		}
+	case map[string]any:
+		if len(x) == 0 && d > 0 {
+			st.emptyObjects++
+		}
+		for k, e := range x {
+			for _, c := range k {
+				if c > 127 {
+					st.unicode = true
+				}
+			}
+			st.walk(e, d+1)
+		}
+	}
+}
